@@ -150,23 +150,16 @@ mod verif_kani {
         let _ = Vec::<u8>::deserialize(&a[..n]);
     }
 
+    // UTF-8 validation (std) is stubbed by a non-deterministic, panic-free stand-in: what is decided
+    // is the decoder's own arithmetic and slicing
     #[kani::proof]
-    #[kani::unwind(20)]
+    #[kani::unwind(30)]
     #[kani::stub(core::panic::Location::caller, stub_caller)]
+    #[kani::stub(core::str::from_utf8, stub_from_utf8)]
     fn c21_string_no_panic() {
-        let a: [u8; 10] = kani::any();
+        let a: [u8; 24] = kani::any();
         let n: usize = kani::any();
-        kani::assume(n <= 10);
-        let _ = String::deserialize(&a[..n]);
-    }
-
-    #[kani::proof]
-    #[kani::unwind(20)]
-    #[kani::stub(core::panic::Location::caller, stub_caller)]
-    fn c21_string_no_panic_len12() {
-        let a: [u8; 12] = kani::any();
-        let n: usize = kani::any();
-        kani::assume(n <= 12);
+        kani::assume(n <= 24);
         let _ = String::deserialize(&a[..n]);
     }
 
